@@ -365,7 +365,7 @@ class Report:
             if k["id"] in self.known_hit:
                 print(f"KNOWN-FINDING: property={self.prop} {k['what']} [{k['id']}; "
                       f"{len(self.known_hit[k['id']])} occurrence(s) this run]")
-            elif self.prop in k.get("properties", []) and k.get("replay_in", self.prop) == self.prop:
+            elif k.get("replay_in", (k.get("properties") or [None])[0]) == self.prop:
                 print(f"NOTE known finding not reproduced in this run: {k['id']}")
         replay = None
         if self.violations:
